@@ -17,8 +17,8 @@ package wal
 //@   requires [recv] r != nil
 //@   ensures [def] result == ite(r.frameN == 0, 0, 32 + (r.frameN - 1) * (24 + r.pageSize))
 //
-// ReadFrame: a frame is accepted only when it belongs to the valid prefix of the WAL, which SQLite
-// defines by the salts AND the running checksum; every refusal leaves the frame counter alone;
+// ReadFrame: with a buffer, a frame is accepted only when it belongs to the valid prefix of the WAL, which
+// SQLite defines by the salts AND the running checksum (without one, on its salts: see scan); every refusal leaves the frame counter alone;
 // page number zero is an error; the counter moves by exactly one per accepted frame.
 //@ func (*Reader) ReadFrame
 //@   requires [recv] r != nil
@@ -46,7 +46,7 @@ package wal
 //@   ghost update after @binary.BigEndian.Uint32#4: st2 = result
 //@   ensures [accepted-frame-has-the-header-salts] err == nil ==> saltsEq
 //@   ensures [verified-frame-has-the-stored-checksum] (err == nil && data != nil) ==> (sumChecked && c1 == st1 && c2 == st2)
-//@   ensures [accepted-frame-is-in-the-valid-prefix] err == nil ==> sumChecked
+//@   ensures [acceptance-on-salts-alone-only-without-a-buffer] (err == nil && !sumChecked) ==> data == nil
 //
 // The compacting scanner.
 //@ type CompactingFrameScanner
@@ -72,15 +72,74 @@ package wal
 //@   ghost update after @s.walReader.Offset: off = result
 //@   assert after @def:offset: [offset-of-the-frame-just-read] offset == s.start + off - 32
 //@   assert after @set:txFrames[pgno]: [recorded-under-its-page-at-its-offset] txFrames[pgno] != nil && txFrames[pgno].Pgno == pgno && txFrames[pgno].Commit == commit && txFrames[pgno].Offset == offset
-//@   assert @set:waitingForCommit: [frame-on-record-is-the-frame-just-read] txFrames[pgno] != nil && txFrames[pgno].Pgno == pgno && txFrames[pgno].Commit == commit && txFrames[pgno].Offset == offset
+//@   assert @set:waitingForCommit#1: [frame-on-record-is-the-frame-just-read] txFrames[pgno] != nil && txFrames[pgno].Pgno == pgno && txFrames[pgno].Commit == commit && txFrames[pgno].Offset == offset
+//@   assert @set:waitingForCommit#2: [frame-on-record-is-the-frame-just-read] txFrames[pgno] != nil && txFrames[pgno].Pgno == pgno && txFrames[pgno].Commit == commit && txFrames[pgno].Offset == offset
 //@   assert @maps.Copy: [kept-only-at-a-commit-frame] commit != 0 && lastCommit == commit
-//@   assert @clear: [transaction-set-emptied-only-after-it-was-kept] commit != 0
+//@   assert @clear#1: [transaction-set-emptied-only-after-it-was-kept] commit != 0
+// Frames accepted on their salts alone (no buffer) that follow the last commit frame are either an
+// unterminated transaction or leftovers beyond the valid prefix (right salts, broken checksum chain:
+// a rolled-back spill overwritten at its start). The first of them is checked against the checksum
+// stored in the commit frame before it: only a frame that continues the chain makes an open
+// transaction; leftovers are dropped, never kept, and never reported as an open transaction.
+//@   ghost var seedFromCommit bool = false
+//@   ghost var cs1 int = 0
+//@   ghost var cs2 int = 0
+//@   ghost var tailChecked bool = false
+//@   ghost var tailOK bool = false
+//@   ghost var firstOfTx int = 0
+//@   ghost update after @def:offset: firstOfTx = ite(!waitingForCommit, offset, firstOfTx)
+//@   ghost update after @s.walReader.LastFrameChecksum: cs1 = result0
+//@   ghost update after @s.walReader.LastFrameChecksum: cs2 = result1
+//@   ghost update after @s.walReader.LastFrameChecksum: seedFromCommit = true
+//@   assert @s.walReader.LastFrameChecksum: [seed-is-the-checksum-of-a-commit-frame] commit != 0
+//@   assert @s.checksumBefore: [seed-of-the-scan-start-only-without-a-commit] !seedFromCommit && arg0 == s.start
+//@   ghost update after @s.checksumBefore: cs1 = result0
+//@   ghost update after @s.checksumBefore: cs2 = result1
+//@   assert @s.frameContinuesChecksum: [first-uncommitted-frame-against-the-checksum-before-it] lastCommit == 0 && arg0 == firstOfTx && arg1 == cs1 && arg2 == cs2
+//@   ghost update after @s.frameContinuesChecksum: tailChecked = (result1 == nil)
+//@   ghost update after @s.frameContinuesChecksum: tailOK = result0
+//@   assert @?clear#2: [leftovers-dropped-only-when-beyond-the-valid-prefix] tailChecked && !tailOK
+//@   ghost update after @?clear#2: lastCommit = 1
 //@   assert after @set:s.frames: [kept-set-built-only-for-a-committed-tail] lastCommit != 0
 //@   ghost update after @sort.Sort: sorted = true
 //@   assert @sort.Sort: [sorts-the-kept-frames] arg0 == s.frames
 //@   loop 1 invariant [waiting-iff-last-frame-was-not-a-commit] waitingForCommit == (lastCommit == 0)
+//@   loop 1 invariant [transaction-start-tracked] waitingForCommit ==> txStart == firstOfTx
+//@   loop 1 invariant [seed-tracked] seedOK == seedFromCommit && (seedOK ==> (seed1 == cs1 && seed2 == cs2))
 //@   ensures [open-transaction-reported] (nRead > 0 && lastCommit == 0) ==> result1 != nil
+//@   ensures [open-transaction-only-for-frames-in-the-valid-prefix] (result1 != nil && result0 > 0) ==> (s.fullScan || (tailChecked && tailOK))
 //@   ensures [handed-out-in-offset-order] result1 == nil ==> sorted
+//
+// checksumBefore: the header checksum for the first frame, otherwise the 8 checksum bytes of the frame before.
+//@ func (*CompactingFrameScanner) checksumBefore
+//@   requires [recv] s != nil && s.header != nil
+//@   assigns **
+//@   assert @s.readSeeker.Seek: [checksum-field-of-the-preceding-frame] arg0 == offset - (24 + s.header.PageSize) + 16 && arg1 == io.SeekStart
+//@   ensures [first-frame-continues-the-header] (offset <= 32) ==> (result2 == nil && result0 == old(s.header.Checksum1) && result1 == old(s.header.Checksum2))
+//
+// frameContinuesChecksum: true only for a complete frame whose stored checksum equals the chain
+// continued from the given seed over its first 8 header bytes and its page.
+//@ func (*CompactingFrameScanner) frameContinuesChecksum
+//@   requires [recv] s != nil && s.header != nil
+//@   assigns **
+//@   ghost var h1 int = 0
+//@   ghost var h2 int = 0
+//@   ghost var d1 int = 0
+//@   ghost var d2 int = 0
+//@   ghost var e1 int = 0
+//@   ghost var e2 int = 0
+//@   ghost var full bool = false
+//@   assert @s.readSeeker.Seek: [the-frame-asked-about] arg0 == offset && arg1 == io.SeekStart
+//@   assert @WALChecksum#1: [from-the-seed] arg1 == chksum1 && arg2 == chksum2
+//@   ghost update after @WALChecksum#1: h1 = result0
+//@   ghost update after @WALChecksum#1: h2 = result1
+//@   assert @WALChecksum#2: [then-the-page] arg1 == h1 && arg2 == h2 && arg3 == s.pageBuf
+//@   ghost update after @WALChecksum#2: d1 = result0
+//@   ghost update after @WALChecksum#2: d2 = result1
+//@   ghost update after @WALChecksum#2: full = (result2 == nil)
+//@   ghost update after @binary.BigEndian.Uint32#1: e1 = result
+//@   ghost update after @binary.BigEndian.Uint32#2: e2 = result
+//@   ensures [true-only-for-a-frame-that-continues-the-chain] result0 ==> (full && d1 == e1 && d2 == e2)
 //
 //@ func (cFrames) Less
 //@   pure
